@@ -104,6 +104,33 @@ has the linearization points of the one-section model -/
 theorem lookup_hit_is_getOrCreate (c : Cache) (k v : Nat) (h : c.table.lookup k = some v) : getOrCreate c k = (c, v) := by
   simp [getOrCreate, h]
 
+/-! ### first-use initialisation: `gp_thread_once` as a section that runs `init` unless the flag is set -/
+
+def onceOp {σ : Type} (init : σ → σ) (s : Bool × σ) (_ : Unit) : (Bool × σ) × Bool :=
+  if s.1 then (s, false) else ((true, init s.2), true)
+
+theorem seqRun_once_done {σ : Type} (init : σ → σ) (x : σ) (l : List Unit) :
+    seqRun (onceOp init) (true, x) l = ((true, x), List.replicate l.length false) := by
+  induction l with
+  | nil => rfl
+  | cons a r ih => simp [seqRun, onceOp, ih, List.replicate_succ]
+
+/-- **C14 (once).** However many threads call it and in whatever order their calls take effect, the initialiser has
+run exactly once as soon as one call has completed: the state is `init s0`, exactly the first call reports having
+run it. -/
+theorem once_runs_once {σ : Type} (init : σ → σ) (s0 : σ) (scripts : Nat → List Unit) (c : Sec (Bool × σ) Unit Bool)
+    (hr : Sec.Reach (onceOp init) (Sec.init (false, s0) scripts) c) (hne : c.log ≠ []) :
+    c.shared = (true, init s0) ∧ c.outs = true :: List.replicate (c.log.length - 1) false := by
+  have h := (section_linearizable (onceOp init) (false, s0) scripts c hr).1
+  cases hl : c.log with
+  | nil => exact absurd hl hne
+  | cons a r =>
+    rw [hl] at h
+    simp only [seqRun, onceOp, Bool.false_eq_true, if_false, seqRun_once_done] at h
+    have h1 : c.shared = (true, init s0) := by have := congrArg Prod.fst h; simpa using this.symm
+    have h2 : c.outs = true :: List.replicate r.length false := by have := congrArg Prod.snd h; simpa using this.symm
+    exact ⟨h1, by simpa using h2⟩
+
 /-- **C14 (counters).** Atomic increments from any number of threads, in any order, are all counted. -/
 theorem counters_exact (c0 c : Ctr) (hr : Ctr.Reach c0 c) (hdone : c.rem.sum = 0) : c.count = c0.count + c0.rem.sum := by
   have := ctr_reach c0 c hr; omega
